@@ -127,18 +127,25 @@ Section Handlers.
     destruct (lookup_channel_h w2 chan_name) as [cid|] eqn:Ec; [|discriminate].
     destruct (lookup_user_h w2 (s_name src)) as [uid|] eqn:Eu; [|discriminate].
     pose proof (I2 _ (in_roots_chan _ _ _ Ec)) as Rc. pose proof (I2 _ (in_roots_user _ _ _ Eu)) as Ru.
-    bind_inv H u Hu. bind_inv H c Hc. bind_inv H h3 H3. bind_inv H h4 H4. bind_inv H u4 Hu4.
-    destruct (channel_add_user_fr _ _ _ _ _ _ _ _ _ F2 Rc H3) as (F3 & L3).
+    bind_inv H u0 Hu0.
+    match type of H with context [hset (w_heap w2) uid (CUser ?x)] => set (u := x) in * end.
+    assert (Ku : ptrs (CUser u) = ptrs (CUser u0)) by (unfold u; destruct (_ && _); reflexivity).
+    assert (S2' : stp n0 L0 h0 R2 (w_heap w2) (hset (w_heap w2) uid (CUser u))).
+    { destruct (user_ptrs_ok _ _ _ _ _ _ _ F2 Ru Hu0) as (Oo & _ & _). apply get_user_ok in Hu0.
+      split; [eapply Fr_hset_same_ptrs; eauto|rewrite hset_length; lia]. }
+    destruct S2' as (F2' & L2'). set (h2 := hset (w_heap w2) uid (CUser u)) in *.
+    bind_inv H c Hc. bind_inv H h3 H3. bind_inv H h4 H4. bind_inv H u4 Hu4.
+    destruct (channel_add_user_fr _ _ _ _ _ _ _ _ _ F2' Rc H3) as (F3 & L3).
     destruct (user_add_channel_fr _ _ _ _ _ _ _ _ _ F3 Ru H4) as (F4 & L4).
     match type of H with context [hset h4 uid (CUser ?x)] => set (u5 := x) in * end.
     assert (K5 : ptrs (CUser u5) = ptrs (CUser u4)).
-    { unfold u5. destruct rest as [|acct [|name r]]; try reflexivity; destruct (streqb acct [42%N]); reflexivity. }
+    { unfold u5. destruct (e_account_tag e); destruct rest as [|acct [|name r]]; try reflexivity; destruct (streqb acct [42%N]); reflexivity. }
     assert (S5 : stp n0 L0 h0 R2 h4 (hset h4 uid (CUser u5))).
     { destruct (user_ptrs_ok _ _ _ _ _ _ _ F4 Ru Hu4) as (Oo & _ & _). apply get_user_ok in Hu4.
       split; [eapply Fr_hset_same_ptrs; eauto|rewrite hset_length; lia]. }
     destruct S5 as (F5 & L5).
     exists R2. destruct S12 as (I12 & _ & L12).
-    assert (Len : length (w_heap w) <= length (hset h4 uid (CUser u5))) by lia.
+    assert (Len : length (w_heap w) <= length (hset h4 uid (CUser u5))) by (unfold h2 in *; lia).
     destruct (streqb _ _); injection H as <-; (split; [exact I12|]; split; [split; [exact I2|exact F5]|exact Len]).
   Qed.
 
